@@ -358,6 +358,18 @@ def run(ctx):
     f_dev = pool.submit(sharded_replay, ctx, bins["dev"], recipes, "dev", max(1, par // 2), ThreadPoolExecutor(max_workers=par), watchdog)
     f_rel = pool.submit(sharded_replay, ctx, bins["release"], recipes, "rel", max(1, par // 2), ThreadPoolExecutor(max_workers=par), watchdog)
     obs = {"dev": f_dev.result(), "release": f_rel.result()}
+    # A hang or an abort is confirmed by replaying that recipe alone with a five times longer
+    # watchdog (a loaded machine must not produce a false `timeout`).
+    for prof in ("dev", "release"):
+        redo = [i for i, o in enumerate(obs[prof]) if o and o.get("outcome") in ("timeout", "abort")]
+        for i in redo[:40]:
+            path = os.path.join(ctx.work, "confirm-%s-%d.cases" % (prof, i))
+            write_ndjson(path, [recipes[i]])
+            o2 = ctx.replay(bins[prof], path, "confirm-%s-%d" % (prof, i), 5 * watchdog).get(0)
+            if o2 is not None:
+                if o2.get("outcome") != obs[prof][i].get("outcome"):
+                    ctx.cov.setdefault("unconfirmed_abnormal", []).append({"recipe": recipes[i].get("id"), "first": obs[prof][i].get("outcome"), "alone": o2.get("outcome", "returned")})
+                obs[prof][i] = o2
     ctx.cov["replay_wall_s"] = round(time.time() - t0, 1)
     log("[c01] replayed %d recipes in both profiles: %.1fs" % (len(recipes), time.time() - t0))
 
